@@ -3,6 +3,6 @@
 patch="$1"; shift
 cd /repo && git apply "$patch" || { echo "patch does not apply"; exit 2; }
 for p in "$@"; do
-  (cd /verif && VERIF_NO_REPLAY_SAVE=1 ./check "$p" --tier quick > /verif/.work/mut_$p.out 2>&1; echo "$p rc=$? violations=$(grep -c VIOLATION /verif/.work/mut_$p.out)"; grep -A1 VIOLATION /verif/.work/mut_$p.out | sed -n 2p | cut -c1-220)
+  (cd /verif && VERIF_SCRATCH_REPLAYS=1 ./check "$p" --tier quick > /verif/.work/mut_$p.out 2>&1; echo "$p rc=$? violations=$(grep -c VIOLATION /verif/.work/mut_$p.out)"; grep -A1 VIOLATION /verif/.work/mut_$p.out | sed -n 2p | cut -c1-220)
 done
 cd /repo && git checkout -- . && git status --short | head -3
